@@ -1,5 +1,6 @@
 """C01 — generated Jaqal text parses back to the same circuit (round trip)."""
 from ._generic import make, STD_TRUST
+from ..extra_c01 import extra_run, matches_known
 
 globals().update(
     make(
@@ -7,11 +8,13 @@ globals().update(
         props=["JaqalProofs/Props/C01.lean", "JaqalProofs/Props/C01Literals.lean"],
         targets=["JaqalProofs.Props.C01", "JaqalProofs.Props.C01Literals"],
         diffs=[("harness.agents.c01_diff", 350, 700), ("harness.agents.num_diff", 1500, 3000)],
+        extra_run=extra_run,
+        known_matcher=matches_known,
         trusted=[
             STD_TRUST,
             "composition of the component models: Lexer/Parser (C02), Builder (C07/C14), Generator and PyEq (C20), NumText (number literals) in JaqalModel/Model/Pipeline.lean (`parseProgram`, `roundTrip`, and the token-level generator `toks` / `unbuild`)",
-            "proved: the literal layer completely (C01Literals: every canonical decimal and every integer is written so that the lexer reads the same value back as exactly one token, byte-stable); layer A (C01_tokens_derive: the generator's tokens derive, in the grammar, the statement tree unbuild c, for every printable circuit — hence parsed back by C02_complete); C01_printable / C01_no_same_kind_nesting / C01_wf for every circuit parse_jaqal_string returns, in any statement order; layer C (C01_rebuild_canonical: the builder maps unbuild c back to EXACTLY c) for programs whose statements come in the generator's order — every generated text is such a program; layer B (C01_lex_gen: lexing the generated text gives those tokens) for every printable LexSafe circuit; the composition C01_roundtrip_canonical",
-            "kept as named propositions in Props/C01.lean, each with the missing lemma named: C01_reorder_full (hoisting lets / the register / aliases / macros of an accepted program into the generator's order does not change what the builder makes — needs acyclicity of the macro table for nestingCheck), C01_lexsafe_full (every parser-produced circuit is LexSafe — false for integer literals beyond CPython's 4300-digit limit, where the real code fails earlier), and C01_roundtrip_full / C01_rebuild_full / C01_lex_gen_full, which follow from those two by proved implications (C01_roundtrip_partial); all layer statements are evaluated in the model on every generated program (driver op round_trip_layers, incl. Cexact) next to the round trip of the real code",
+            "proved (Props/C01.lean): C01_roundtrip_bounded — the whole round trip for every accepted text in any statement order under the decidable hypothesis IntsBounded (no integer of more than 4300 digits is written); layers A (C01_tokens_derive), B (C01_lex_gen_bounded, C01_lexsafe_iff), C (C01_reorder, C01_rebuild_exact); the literal layer completely (C01Literals); C01_big_stop: the hypothesis cannot be dropped (open known finding int-beyond-str-limit, witness in harness/extra_c01.py)",
+            "all layer statements are also evaluated in the model on every generated program (driver op round_trip_layers, incl. exact rebuild) next to the round trip of the real code, in random statement orders and after every pass",
             "floats are modelled by their exact decimal value (DESIGN.md §3.3): literals with ≤ 15 significant digits in the normal range; integral floats ≥ 2^53 become ints through the exact binary value and are sent through the direct oracles only",
         ],
         assumptions=["the model takes autoload_pulses = False with injected or no native gates; pulse imports are outside the round-trip model (C14_precedence covers gate-table precedence)"],
